@@ -32,7 +32,9 @@ const (
 
 type serialMod struct{ mod, rem uint64 }
 
-func (m serialMod) sel(s *big.Int) bool { return s != nil && s.IsUint64() && (s.Uint64()>>8)%m.mod == m.rem }
+func (m serialMod) sel(s *big.Int) bool {
+	return s != nil && s.IsUint64() && (s.Uint64()>>8)%m.mod == m.rem
+}
 func (m serialMod) CertificateMatches(c *x509.Certificate) bool {
 	return c != nil && m.sel(c.SerialNumber)
 }
@@ -117,7 +119,7 @@ func checkScan(t *testing.T, c Case) (v harness.Verdict) {
 	var mu sync.Mutex
 	var got []foundRec
 	var late int64
-	o := runCase(t, &c, log, func(f *fakeLog, returned *atomic.Bool) (func(ctx context.Context) error, func()) {
+	o := runCase(t, "scan", &c, log, func(f *fakeLog, returned *atomic.Bool) (func(ctx context.Context) error, func()) {
 		opts := scanner.ScannerOptions{
 			FetcherOptions: scanner.FetcherOptions{BatchSize: c.Batch, ParallelFetch: c.Fetchers, StartIndex: c.Start, EndIndex: c.End, Continuous: c.Continuous},
 			Matcher:        matcherFor(&c), PrecertOnly: c.PrecertOnly, NumWorkers: c.Workers, BufferSize: c.Buffer,
